@@ -383,7 +383,8 @@ def r16_hoist_arg(text, call, name):
             break
         s += mm.end()
     between = text[s:k]
-    if not re.match(r'^\s*(let\s+(mut\s+)?%s(\s*:\s*[^=]+)?\s*=\s*)?([A-Za-z_][A-Za-z0-9_:]*\(\s*((%s)\s*,\s*)*)+$' % (IDENT, IDENT), between):
+    if not re.match(r'^\s*(let\s+(mut\s+)?%s(\s*:\s*[^=]+)?\s*=\s*)?([A-Za-z_][A-Za-z0-9_:]*\(\s*((%s)\s*,\s*)*)+$' % (IDENT, IDENT), between) \
+            and not re.match(r'^\s*for %s in $' % IDENT, between):
         raise RuleError('R16: statement prefix %r is not a call on plain variables' % between)
     ls = text.rfind('\n', 0, s) + 1 if text[s:k].lstrip() == text[s:k] else s
     m = re.match(r'\s*', text[s:])
@@ -531,3 +532,53 @@ def r18_slice_pattern(text):
     (desugaring of the one-element slice pattern; Verus has no slice patterns)"""
     pat = re.compile(r'match ([^\n{]+?) \{\s*\[(%s)\] => ([^\n]+),\s*_ => ([^\n]+),\s*\}' % IDENT)
     return pat.subn(lambda m: '{ let vt_s = %s; if vt_s.len() == 1 { let %s = &vt_s[0]; %s } else { %s } }' % m.groups(), text)
+
+
+@rule('R15_for')
+def r15_for_chars(text):
+    """for c in X.chars() {   ->   let vt_v = X.vt_chars_vec(); for vt_i in 0..vt_v.len() { let c = &vt_v[vt_i];     (body without `continue`)"""
+    pat = re.compile(r'([ \t]*)for (%s) in (%s)\.chars\(\) \{' % (IDENT, IDENT))
+
+    def sub(m):
+        ind, c, x = m.groups()
+        return '%slet vt_v = %s.vt_chars_vec();\n%sfor vt_i in 0..vt_v.len() {\n%s    let %s = &vt_v[vt_i];' % (ind, x, ind, ind, c)
+    return pat.subn(sub, text)
+
+
+@rule('R6_byte_process')
+def r6_byte_process(text):
+    """named idioms of ByteTokenizer::process_input (iterator adapters / macros Verus cannot take):
+       vec![TokenGroup::Full(1); N]                                         -> vt_full_ones(N)
+       T.extend(S.as_bytes().iter().map(|b| *b as u32))                      -> vt_extend_bytes(&mut T, S.as_bytes())
+       G.extend(CS.get_char_byte_lengths().into_iter().map(TokenGroup::Full)) -> vt_extend_full(&mut G, CS.get_char_byte_lengths())
+       C.code_points().map(|p| TokenGroup::Full(p.len_utf8())).collect()      -> vt_code_point_groups(C)
+       HashMap::from([(K, V)])                                               -> vt_single_map(K, V)"""
+    n = 0
+    text, k = re.subn(r'vec!\[TokenGroup::Full\(1\); ([^\]]+)\]', r'vt_full_ones(\1)', text)
+    n += k
+    text, k = re.subn(r'\b(%s)\.extend\((%s)\.as_bytes\(\)\.iter\(\)\.map\(\|(%s)\| \*(%s) as u32\)\)' % ((IDENT,) * 4),
+                      lambda m: 'vt_extend_bytes(&mut %s, %s.as_bytes())' % (m.group(1), m.group(2)) if m.group(3) == m.group(4) else m.group(0), text)
+    n += k
+    text, k = re.subn(r'\b(%s)\.extend\(\s*(%s)\.get_char_byte_lengths\(\)\.into_iter\(\)\.map\(TokenGroup::Full\),?\s*\)' % (IDENT, IDENT),
+                      r'vt_extend_full(&mut \1, \2.get_char_byte_lengths())', text)
+    n += k
+    text, k = re.subn(r'\b(%s)\s*\.code_points\(\)\s*\.map\(\|(%s)\| TokenGroup::Full\((%s)\.len_utf8\(\)\)\)\s*\.collect\(\)' % ((IDENT,) * 3),
+                      lambda m: 'vt_code_point_groups(%s)' % m.group(1) if m.group(2) == m.group(3) else m.group(0), text)
+    n += k
+    text, k = re.subn(r'HashMap::from\(\[\(\s*([^,\n]+),\s*(\([^()\n]*\)),?\s*\)\]\)', r'vt_single_map(\1, \2)', text)
+    n += k
+    return text, n
+
+
+@rule('R6_chain3')
+def r6_chain3(text):
+    """A.iter().cloned().chain(B).chain(C.iter().cloned()).collect()   ->  vt_chain3(A, B, C)"""
+    pat = re.compile(r'([A-Za-z_][A-Za-z0-9_\.]*\(\))\s*\.iter\(\)\s*\.cloned\(\)\s*\.chain\((%s)\)\s*\.chain\(([A-Za-z_][A-Za-z0-9_\.]*\(\))\.iter\(\)\.cloned\(\)\)\s*\.collect\(\)' % IDENT)
+    return pat.subn(r'vt_chain3(\1, \2, \3)', text)
+
+
+@rule('R6_extend_as_bytes')
+def r6_extend_as_bytes(text):
+    """V.extend( E.as_bytes(), )   ->   vt_extend_slice(&mut V, E.as_bytes());     (E may span lines)"""
+    pat = re.compile(r'\b(%s)\.extend\(\s*((?:[^;]|\n)*?)\.as_bytes\(\),?\s*\);' % IDENT)
+    return pat.subn(lambda m: 'vt_extend_slice(&mut %s, %s.as_bytes());' % (m.group(1), m.group(2)), text)
